@@ -3,6 +3,7 @@ import common
 import io
 import os
 import random
+import re
 import shutil
 import subprocess
 import sys
@@ -317,7 +318,7 @@ def followup_runs(out, mammoth, hrng, ctx, lines, meta, hist):
         after = snapshot(ctx["outdir"])
         stem = os.path.splitext(ctx["name"])[0]
         case_rec = {"kind": "cli", "args": [a.replace(ctx["d"], "<dir>") for a in ctx["args"]], "style_map": ctx["sm"], "docx_hex": data.hex() if len(data) < 40000 else None, "name": ctx["name"],
-                    "preexisting": preexisting_record(before), "history": {"step": step, "revision": did,
+                    "preexisting": preexisting_record(before), "layout": ctx.get("lay"), "history": {"step": step, "revision": did,
                                                                           "note": "run %d of the same command into the same --output-dir; `preexisting` is the directory as the earlier runs left it" % (step + 1)}}
         calls, seen = seen, [(ct, b) for ct, b in seen if b is not None]
         out.count(key="cli-%s-again%d" % (ctx["key"], step), nontrivial=bool(seen))
@@ -346,6 +347,212 @@ def followup_runs(out, mammoth, hrng, ctx, lines, meta, hist):
             return
 
 
+# ---------------------------------------------------------------------------
+# dropped elements: a style map may send a paragraph / run / table style to `!`; what is inside never reaches the page - and a
+# picture that is not in the page has no file and takes no number.  The documents get styled paragraphs, runs and tables around
+# their pictures (and further placements of the same pictures), the --style-map file maps some of the styles to `!` and others
+# to ordinary paths; the styles are defined in a styles part or left dangling (a warning each).
+# ---------------------------------------------------------------------------
+
+DROP_STYLES = {"w:p": ("w:pPr", "w:pStyle", "p", [("EditorNote", "Editor Note"), ("Scratch", "scratch pad")], [("Caption1", "caption one"), ("Lead", "Lead In")]),
+               "w:r": ("w:rPr", "w:rStyle", "r", [("HiddenText", "Hidden Text"), ("Redacted", "redacted")], [("Emph1", "emphasis one")]),
+               "w:tbl": ("w:tblPr", "w:tblStyle", "table", [("ScratchTable", "Scratch Table")], [("Grid1", "grid one")])}
+KEEP_PATHS = {"p": ["p.kept:fresh", "h2:fresh", "div.box > p:fresh", "ul > li:fresh"], "r": ["span.kept", "em", "strong"], "table": ["table.kept", "div.wrap > table"]}
+
+
+def has_picture(node):
+    if isinstance(node, str):
+        return False
+    return node[0] in ("w:drawing", "w:pict") or any(has_picture(c) for c in node[2])
+
+
+def dropped_elements(drng, parts):
+    """-> (parts, style-map lines, what was done)"""
+    import copy
+    from gen_docx import el as _el
+    parts = copy.deepcopy(parts)
+    doc = next((p_ for p_ in parts if p_["name"] == "word/document.xml" and "xml" in p_), None)
+    if doc is None:
+        return parts, [], None
+    body = doc["xml"][2][0]
+    runs = []
+
+    def collect(node):
+        if isinstance(node, str):
+            return
+        if node[0] == "w:r" and has_picture(node):
+            runs.append(node)
+            return
+        for c in node[2]:
+            collect(c)
+    collect(body)
+    if not runs:
+        return parts, [], None
+    # further placements of the pictures, in paragraphs of their own (before, between and after what is there)
+    for _ in range(drng.choice([0, 1, 1, 2, 3])):
+        para = _el("w:p", [], [copy.deepcopy(drng.choice(runs)) for _ in range(drng.choice([1, 1, 2]))])
+        if drng.random() < 0.25:
+            para = _el("w:tbl", [], [_el("w:tr", [], [_el("w:tc", [], [para])])])
+        body[2].insert(drng.randint(0, len([c for c in body[2] if isinstance(c, str) or c[0] != "w:sectPr"])), para)
+    used, done = {}, {"drop": 0, "keep": 0, "dropped_with_picture": 0}
+    p_drop = drng.choice([0.25, 0.4, 0.6])
+
+    def style(node):
+        if isinstance(node, str):
+            return
+        for c in node[2]:
+            style(c)
+        if node[0] not in DROP_STYLES or (node[0] == "w:r" and not has_picture(node) and drng.random() < 0.7):
+            return
+        prn, stn, sel, drops, keeps = DROP_STYLES[node[0]]
+        r = drng.random()
+        if r < p_drop:
+            sid, role = drng.choice(drops), "drop"
+        elif r < p_drop + 0.2:
+            sid, role = drng.choice(keeps), "keep"
+        else:
+            return
+        pr = next((c for c in node[2] if not isinstance(c, str) and c[0] == prn), None)
+        if pr is None:
+            pr = _el(prn)
+            node[2].insert(0, pr)
+        pr[2][:] = [c for c in pr[2] if isinstance(c, str) or c[0] != stn] + [_el(stn, [("w:val", sid[0])])]
+        used[(node[0], sid)] = role
+        done[role] += 1
+        if role == "drop" and has_picture(node):
+            done["dropped_with_picture"] += 1
+    for b in body[2]:
+        style(b)
+    defined = drng.random() < 0.6 and not any(p_["name"] == "word/styles.xml" for p_ in parts)
+    lines = []
+    for (tag, (sid, sname)), role in sorted(used.items()):
+        sel = DROP_STYLES[tag][2]
+        matcher = "%s[style-name='%s']" % (sel, sname) if (defined and drng.random() < 0.5) else "%s.%s" % (sel, sid)
+        lines.append("%s => %s" % (matcher, "!" if role == "drop" else drng.choice(KEEP_PATHS[sel])))
+    drng.shuffle(lines)
+    if defined:
+        kinds = {"w:p": "paragraph", "w:r": "character", "w:tbl": "table"}
+        parts.append({"name": "word/styles.xml", "xml": _el("w:styles", [], [_el("w:style", [("w:type", kinds[tag]), ("w:styleId", sid)], [_el("w:name", [("w:val", sname)])])
+                                                                              for (tag, (sid, sname)) in sorted(used)])})
+    done["styles_defined"] = defined
+    return parts, lines, done
+
+
+# ---------------------------------------------------------------------------
+# how the document is named on the command line.  docx-path is whatever the user typed: absolute or relative to the current
+# directory, with ./ and ../ in it, and the name may be a symbolic link (the "latest" link next to dated files, a readable name
+# for a blob in a store).  The command works on the path AS GIVEN: <input basename> is the basename of that path, and the library
+# is handed the file opened under that path, so pictures linked relatively are looked up next to it.
+# ---------------------------------------------------------------------------
+
+SPELLINGS = ["absolute"] * 5 + ["relative", "relative", "dot", "updir", "abs-updir", "filelink", "filelink", "filelink-abs", "dirlink", "farlink", "farlink", "farlink-abs", "chain"]
+ALIASES = ["latest.docx", "alias", "Quarterly report.docx", "länk.docx", "alias.v2.docx", "copy.", "LATEST.DOCX"]
+LINKED_TARGETS = ["linked-1.png", "linked-1.png", "pics/linked 1.png", "./linked-1.png", "linked-ü.png"]
+
+
+def add_linked_picture(drng, parts):
+    """a picture that is linked, not embedded (r:link, TargetMode External, a relative target): the library opens it next to the
+    file it was given; -> (parts, [relative target, bytes]) or (parts, None)"""
+    import copy
+    from gen_docx import el as _el, REL as _REL
+    if not any(p_["name"] == "word/_rels/document.xml.rels" and "xml" in p_ for p_ in parts):
+        return parts, None
+    parts = copy.deepcopy(parts)
+    target = drng.choice(LINKED_TARGETS)
+    data = bytes(drng.randrange(256) for _ in range(drng.choice([1, 5, 40, 300])))
+    for p_ in parts:
+        if p_["name"] == "word/document.xml":
+            body = p_["xml"][2][0]
+            para = _el("w:p", [], [_el("w:r", [], [_el("w:t", [], ["linked"]), _el("w:drawing", [], [_el("wp:inline", [], [_el("wp:docPr", [("descr", "a linked picture")]), _el("a:graphic", [], [_el("a:graphicData", [], [
+                _el("pic:pic", [], [_el("pic:blipFill", [], [_el("a:blip", [("r:link", "rIdLinkedPic")])])])])])])])])])
+            body[2].insert(drng.randint(0, len([c for c in body[2] if isinstance(c, str) or c[0] != "w:sectPr"])), para)
+        if p_["name"] == "[Content_Types].xml" and "xml" in p_:
+            p_["xml"][2].append(["content-types:Override", [["PartName", "/" + target], ["ContentType", "image/png"]], []])
+        if p_["name"] == "word/_rels/document.xml.rels":
+            p_["xml"][2].append(_el("relationships:Relationship", [("Id", "rIdLinkedPic"), ("Type", _REL + "image"), ("Target", target), ("TargetMode", "External")]))
+    return parts, [target, data]
+
+
+def realise_spelling(drng, d, name, spelling, linked):
+    """the document was written to <d>/<name>; rearrange the directory so that `spelling` applies.
+    -> (docx-path as typed [the current directory is d], layout record for the replay)"""
+    lay = {"spelling": spelling, "real": name, "mkdirs": [], "links": [], "pictures": []}
+
+    def alias():
+        return drng.choice([a for a in ALIASES if a != name])
+
+    def mkdir(rel):
+        os.makedirs(os.path.join(d, rel), exist_ok=True)
+        lay["mkdirs"].append(rel)
+
+    def link(target, rel):
+        os.symlink(target, os.path.join(d, rel))
+        lay["links"].append([rel, target.replace(d, "<dir>")])
+
+    def store(blob):
+        mkdir("store")
+        os.rename(os.path.join(d, name), os.path.join(d, "store", blob))
+        lay["real"] = "store/" + blob
+    given = name
+    if spelling == "absolute":
+        given = os.path.join(d, name)
+    elif spelling == "dot":
+        given = "./" + name
+    elif spelling in ("updir", "abs-updir"):
+        mkdir("sub")
+        given = "sub/../" + name if spelling == "updir" else os.path.join(d, "sub", "..", name)
+    elif spelling in ("filelink", "filelink-abs"):
+        a = alias()
+        link(name, a)
+        given = a if spelling == "filelink" else os.path.join(d, a)
+    elif spelling == "chain":
+        a = alias()
+        link(name, "hop.docx")
+        link("hop.docx", a)
+        given = a
+    elif spelling == "dirlink":
+        store(name)
+        link("store", "dl")
+        given = "dl/" + name
+    elif spelling in ("farlink", "farlink-abs"):
+        blob = drng.choice(["3f9a1c07.blob", "report-2026-09.docx", name])
+        a = drng.choice([name, alias()])
+        store(blob)
+        link(drng.choice(["store/" + blob, os.path.join(d, "store", blob)]), a)
+        given = a if spelling == "farlink" else os.path.join(d, a)
+    if linked is not None:
+        target, data = linked
+        here = os.path.dirname(os.path.join(d, given))
+        rel = os.path.relpath(os.path.normpath(os.path.join(here, target)), d) if spelling != "dirlink" else "store/" + target
+        places = [[rel, data]]
+        real_dir = os.path.dirname(lay["real"])
+        if real_dir and spelling != "dirlink" and drng.random() < 0.6:
+            # the same relative name next to the file the link points to: another picture (not the one the document links to)
+            places.append([os.path.normpath(os.path.join(real_dir, target)), bytes(b ^ 0x5A for b in data) + b"decoy"])
+        for rel, b in places:
+            os.makedirs(os.path.dirname(os.path.join(d, rel)), exist_ok=True)
+            with open(os.path.join(d, rel), "wb") as f:
+                f.write(b)
+            lay["pictures"].append([rel, b.hex()])
+    lay["given"] = given.replace(d, "<dir>")
+    return given, lay
+
+
+def recreate_layout(d, lay, data):
+    """the directory of a recorded case again (replay): the document, the links, the linked pictures"""
+    for rel in lay["mkdirs"]:
+        os.makedirs(os.path.join(d, rel), exist_ok=True)
+    with open(os.path.join(d, lay["real"]), "wb") as f:
+        f.write(data)
+    for rel, target in lay["links"]:
+        os.symlink(target.replace("<dir>", d), os.path.join(d, rel))
+    for rel, hx in lay["pictures"]:
+        os.makedirs(os.path.dirname(os.path.join(d, rel)), exist_ok=True)
+        with open(os.path.join(d, rel), "wb") as f:
+            f.write(bytes.fromhex(hx))
+    return lay["given"].replace("<dir>", d)
+
+
 def run(out, tier, seed, model_ok):
     import mammoth
     rng = random.Random(seed * 7919 + 20)
@@ -358,6 +565,8 @@ def run(out, tier, seed, model_ok):
     for i in range(n):
         d = os.path.join(base, "c%d" % i)
         os.makedirs(d)
+        os.chdir(d)        # the command runs with d as its current directory; so does everything here that opens the path as typed
+        drng = random.Random(seed * 7919 + 4001 + 37 * i)       # dropped elements, the spelling of docx-path: a stream of their own
         hrng = random.Random(seed * 7919 + 2007 + 31 * i)      # the history of the output directory: its own stream, the cases stay what they were
         mode = rng.choice(["stdout", "path", "dir", "dir"])
         bulk = bulk_plan(rng) if rng.random() < 0.3 else None
@@ -407,6 +616,14 @@ def run(out, tier, seed, model_ok):
                     p_["xml"][2].append(["content-types:Override", [["PartName", "/no-such-picture.png"], ["ContentType", "image/png"]], []])
                 if p_["name"] == "word/_rels/document.xml.rels":
                     p_["xml"][2].append(_el("relationships:Relationship", [("Id", "rIdMissing"), ("Type", _REL + "image"), ("Target", "no-such-picture.png"), ("TargetMode", "External")]))
+        drop_lines, dropped, linked = [], None, None
+        if imgs and drng.random() < (0.75 if mode == "dir" else 0.4):
+            parts, drop_lines, dropped = dropped_elements(drng, parts)
+            if dropped:
+                out.extra["c20_dropped_elements"] = [a + b for a, b in zip(out.extra.get("c20_dropped_elements", [0, 0, 0]), [1, dropped["drop"], dropped["dropped_with_picture"]])]
+        spelling = drng.choice(SPELLINGS)
+        if drng.random() < (0.7 if spelling.startswith("farlink") else 0.25):
+            parts, linked = add_linked_picture(drng, parts)
         pad_text = None
         if bulk:
             parts, pad_text = add_bulk(rng, parts, bulk)
@@ -415,10 +632,18 @@ def run(out, tier, seed, model_ok):
         inpath = os.path.join(d, name)
         with open(inpath, "wb") as f:
             f.write(data)
+        lay = None
+        if spelling != "absolute" or linked is not None:
+            # docx-path as typed (relative, through links ...); from here on `name` is ITS basename and `inpath` the path as typed
+            inpath, lay = realise_spelling(drng, d, name, spelling, linked)
+            name = os.path.basename(inpath)
+            out.extra.setdefault("c20_spellings", {})[spelling] = out.extra.setdefault("c20_spellings", {}).get(spelling, 0) + 1
         fmt = rng.choice([None, None, "html", "markdown"])
         sm = None
         if rng.random() < 0.5:
             sm = rng.choice(["p => h3", "p[style-name='heading 1'] => h1.é\nr => span.x", "# c\n\np => div\x0cb => i", "p => section r => q", "nonsense line\nb => strong.big", "p =>p.a\r\np.Tip => aside"])
+        if drop_lines:
+            sm = "\n".join(drop_lines) + ("\n" + sm if sm is not None else "")      # first match wins: the dropped styles first
         if bulk and bulk["big_style_map"]:
             sm = bulk_style_map(rng, bulk, sm)
         args = [inpath]
@@ -451,6 +676,7 @@ def run(out, tier, seed, model_ok):
         # the command reads that file in the locale's encoding) are made under the C locale with UTF-8 mode and locale
         # coercion switched off, where an output file opened without an explicit encoding cannot hold non-ASCII text
         asc = (sm is None or sm.isascii()) and hrng.random() < 0.3
+        asc = asc and (linked is None or linked[0].isascii())      # (the name of a linked picture comes out of the document, not from the command line)
         p = run_cli(args, d, ASCII_LOCALE if asc else None)
         if asc:
             out.extra["c20_ascii_locale_runs"] = out.extra.get("c20_ascii_locale_runs", 0) + 1
@@ -460,11 +686,16 @@ def run(out, tier, seed, model_ok):
         if sm is not None:
             with open(os.path.join(d, "style.map"), encoding="utf-8") as f:   # text mode, as the CLI reads it (universal newlines)
                 sm_text = f.read()
-        seen = []
+        seen, calls = [], []       # the pictures that reach the page; every picture handed to the converter (b is None: it could not be opened)
 
-        def conv(image, seen=seen):
-            with image.open() as fh:
-                b = fh.read()
+        def conv(image, seen=seen, calls=calls):
+            try:
+                with image.open() as fh:
+                    b = fh.read()
+            except Exception:
+                calls.append((image.content_type, None))
+                raise
+            calls.append((image.content_type, b))
             seen.append((image.content_type, b))
             return {"src": "%d.%s" % (len(seen), image.content_type.partition("/")[2])}
         kw = dict(style_map=sm_text, output_format=fmt)
@@ -488,6 +719,8 @@ def run(out, tier, seed, model_ok):
         lib_value, lib_msgs = lib.value, [m.message for m in lib.messages]
         case_rec = {"kind": "cli", "args": [a.replace(d, "<dir>") for a in args], "style_map": sm, "docx_hex": data.hex() if len(data) < 40000 else None, "name": name,
                     "ascii_locale": asc}
+        if lay:
+            case_rec["layout"] = lay
         if before:
             case_rec["preexisting"] = preexisting_record(before)
         if mode == "dir":
@@ -532,9 +765,10 @@ def run(out, tier, seed, model_ok):
                     fp = os.path.join(outdir, fn)
                     if not os.path.exists(fp) or open(fp, "rb").read() != b:
                         probs.append("image file %s is missing or does not hold the image bytes" % fn)
+                exp_files |= set(picture_files(calls))      # (the empty file an unopenable picture leaves behind, unless a later picture takes the name)
                 if set(files) != exp_files | {fn.split(os.sep)[0] for fn in before}:
                     probs.append("files in the output directory: %r, expected %r" % (files, sorted(exp_files | {fn.split(os.sep)[0] for fn in before})))
-                probs += history_problems(before, after, stem, want, seen)
+                probs += history_problems(before, after, stem, want, calls)
                 if fmt != "markdown" and os.path.exists(html):
                     try:
                         srcs = [dict(nn[2]).get("src") for _c, nn in HO.walk(HO.parse(open(html, "rb").read().decode("utf-8", "replace"))) if nn[0] == "el" and nn[1] == "img"]
@@ -542,17 +776,25 @@ def run(out, tier, seed, model_ok):
                             probs.append("img src values %r do not name the image files in document order" % srcs)
                     except HO.Malformed:
                         pass
+                if fmt == "markdown" and os.path.exists(html):
+                    # the same for a Markdown page: ![alt](src), alt texts of the generated pictures are plain
+                    refs = re.findall(r"!\[[^\]\n]*\]\(([^)\n]*)\)", open(html, "rb").read().decode("utf-8", "replace"))
+                    if refs != ["%d.%s" % (k + 1, ct.partition("/")[2]) for k, (ct, b) in enumerate(seen)]:
+                        probs.append("image references %r of the Markdown page do not name the image files in document order" % refs)
             err_lines = p.stderr.decode("utf-8", "replace")
             if err_lines != as_stderr("".join(m + "\n" for m in lib_msgs), asc):
                 probs.append("standard error is not the library's messages, one per line")
         if probs:
             out.violation("; ".join(probs[:3]), case_rec, expected={"value": lib_value[:300], "messages": lib_msgs[:5]},
                           actual={"stdout": p.stdout.decode("utf-8", "replace")[:300], "stderr": p.stderr.decode("utf-8", "replace")[:300]})
-        lines.append({"op": "cli", "path": inpath, "output": outpath, "outputDir": outdir, "format": fmt, "styleMap": sm_text, "value": lib_value, "messages": lib_msgs,
-                      "images": [[ct, b.hex()] for ct, b in seen]})
-        meta.append((case_rec, p, mode, outdir, outpath))
+        if mode != "dir" or picture_files(calls) == picture_files(seen):
+            # (otherwise an unopenable picture left its empty file behind: outside cliRun [all pictures open], judged above only)
+            lines.append({"op": "cli", "path": inpath, "output": outpath, "outputDir": outdir, "format": fmt, "styleMap": sm_text, "value": lib_value, "messages": lib_msgs,
+                          "images": [[ct, b.hex()] for ct, b in seen]})
+            meta.append((case_rec, p, mode, outdir, outpath))
         if mode == "dir" and seen and p.returncode == 0 and hrng.random() < 0.5:
-            followup_runs(out, mammoth, hrng, dict(parts=parts, inpath=inpath, d=d, name=name, args=args, fmt=fmt, sm=sm, sm_text=sm_text, outdir=outdir, key="%d-%d" % (seed, i)), lines, meta, hist)
+            followup_runs(out, mammoth, hrng, dict(parts=parts, inpath=inpath, d=d, name=name, args=args, fmt=fmt, sm=sm, sm_text=sm_text, outdir=outdir, key="%d-%d" % (seed, i), lay=lay), lines, meta, hist)
+    os.chdir(common.VERIF)
     if model_ok:
         for (case_rec, p, mode, outdir, outpath), m in zip(meta, run_driver(lines, tag="cli")):
             if "error" in m:
@@ -583,10 +825,23 @@ def run(out, tier, seed, model_ok):
                 "same file, style-map text and format; stderr = messages one per line; --output-dir: <stem>.html plus k.<subtype> files with the exact image bytes, img src "
                 "in document order; all compared with the Lean cliRun model; non-trivial = --output-dir with images; output directories with a history (files of the same names, "
                 "longer / shorter / equal / symbolic links, unrelated files; the directory of an earlier run reused; the same command again after the pictures were revised): "
-                "the whole directory afterwards, byte by byte, = the directory before overlaid with the files the statement names")
+                "the whole directory afterwards, byte by byte, = the directory before overlaid with the files the statement names; "
+                "paragraph / run / table styles around the pictures (and further placements of them) that the --style-map file sends to `!` or to ordinary paths, defined or dangling; "
+                "docx-path typed absolute / relative / with ./ and ../ / as a symbolic link of another basename (same folder, a chain, through a linked directory, in another folder than its "
+                "target), pictures linked relatively next to the path as typed and a decoy next to the link's target: the reference is the library on the file opened under the path as typed")
     if meta:
         out.sample(meta[0][0]["args"])
         out.sample(meta[-1][0]["args"])
+
+
+def page_references(fmt, text):
+    """the src of every img of an HTML page / the target of every ![..](..) of a Markdown page, in order (None: unreadable)"""
+    if fmt == "markdown":
+        return re.findall(r"!\[[^\]\n]*\]\(([^)\n]*)\)", text)
+    try:
+        return [dict(nn[2]).get("src") for _c, nn in HO.walk(HO.parse(text)) if nn[0] == "el" and nn[1] == "img"]
+    except HO.Malformed:
+        return None
 
 
 def replay(out, payload, model_ok):
@@ -601,8 +856,13 @@ def replay(out, payload, model_ok):
     d = os.path.join(WORK, "c20_replay_%d" % os.getpid())
     shutil.rmtree(d, ignore_errors=True)
     os.makedirs(os.path.join(d, "outdir"))
-    with open(os.path.join(d, case["name"]), "wb") as f:
-        f.write(bytes.fromhex(case["docx_hex"]))
+    docpath = os.path.join(d, case["name"])
+    if case.get("layout"):
+        docpath = recreate_layout(d, case["layout"], bytes.fromhex(case["docx_hex"]))      # the path as typed; relative to d
+    else:
+        with open(docpath, "wb") as f:
+            f.write(bytes.fromhex(case["docx_hex"]))
+    os.chdir(d)
     sm_text = None
     if case.get("style_map") is not None:
         with open(os.path.join(d, "style.map"), "w", encoding="utf-8", newline="") as f:
@@ -632,7 +892,7 @@ def replay(out, payload, model_ok):
     kw = dict(style_map=sm_text, output_format=fmt)
     if outdir:
         kw["convert_image"] = mammoth.images.img_element(conv)
-    with open(os.path.join(d, case["name"]), "rb") as f:
+    with open(docpath, "rb") as f:
         lib = mammoth.convert(f, **kw)
     want = lib.value.encode("utf-8")
     if outdir:
@@ -651,8 +911,13 @@ def replay(out, payload, model_ok):
     elif outdir and recreated:
         # every file of the directory, byte by byte
         after = snapshot(outdir)
-        value2, _msgs2, calls = library_dir_result(mammoth, os.path.join(d, case["name"]), sm_text, fmt)
+        value2, _msgs2, calls = library_dir_result(mammoth, docpath, sm_text, fmt)
         probs = history_problems(before, after, os.path.splitext(case["name"])[0], value2.encode("utf-8"), calls)
+        refs = page_references(fmt, (got or b"").decode("utf-8", "replace"))
+        names = ["%d.%s" % (k + 1, ct.partition("/")[2]) for k, (ct, b) in enumerate([c for c in calls if c[1] is not None])]
+        if refs is not None and refs != names:
+            probs.append("the pictures the page refers to are %r; the picture files, in document order, are %r" % (refs, names))
         if probs:
             out.violation("; ".join(probs[:3]), case)
+    os.chdir(common.VERIF)
     shutil.rmtree(d, ignore_errors=True)
